@@ -241,6 +241,9 @@ class Metadata(CbMixin, ProgMixin):
         self.name = info["name"]
         self.meta_version = info.get("meta version", 1)
         self.pieces = info.get("pieces", bytes())
+        # the decoder returns text for byte strings that are valid UTF-8
+        if isinstance(self.pieces, str):
+            self.pieces = self.pieces.encode("utf-8")
         if self.meta_version == 2:
             tree = info["file tree"]
             if ("files" not in info and list(tree) == [self.name]
